@@ -47,6 +47,12 @@ class Runner:
                     busy = True
         for op in sess.ops:
             ctx.count("op:" + op.split(" ", 1)[0])
+        if extra and "skipped" in extra:
+            # a scripted scenario that did not reach its starting point (the session still takes part in the
+            # correspondence): counted, so that the evidence shows how many scenarios ran to their end
+            ctx.count(f"scenario-skipped:{self.suite}")
+        elif extra is not None:
+            ctx.count(f"scenario-completed:{self.suite}")
         if busy if nontrivial is None else nontrivial:
             ctx.distinct.add(script_hash(script))
         if len(ctx.samples) < 3:
